@@ -4,6 +4,9 @@
 -/
 import GFO.Model.Proto
 import GFO.Model.Shared
+import GFO.Model.Grid
+import GFO.Model.Kernels
+import GFO.Model.Init
 open GFO GFO.Proto
 
 /-- one recorded backend interaction of the real run -/
@@ -184,6 +187,60 @@ def exec (m : M) (cmd : String) : P (M × List String) := do
     let dur ← pRat; let r ← pRes
     pure ({ m with byCall := m.byCall.push (r, dur) }, ["ok"])
   | "drun" => pure (runCall m)
+  -- ---------------- kernels (GFO.Model.Kernels)
+  | "conv2pos" => do
+    let ms ← pList pInt; let size ← pNat; let v ← pList pF; let rnd ← pList pInt
+    pure (m, [showPos (conv2pos v ms size rnd)])
+  | "movepart" => do
+    let ms ← pList pInt; let p ← pList pInt; let v ← pList pF
+    pure (m, [showPos (movePart p v ms)])
+  | "spiralclip" => do
+    let ms ← pList pInt; let v ← pList pF
+    pure (m, [showPos (spiralClip v ms)])
+  | "initgrid" => do
+    let dim ← pNat; let p ← pNat
+    pure (m, [showList toString (initGridDim dim p)])
+  -- ---------------- initial positions (GFO.Model.Init)
+  | "setpos" => do
+    let nd := m.sp.dims.length
+    let rnd ← pOpt pNat; let grid ← pOpt pNat; let vtx ← pOpt pNat; let nwarm ← pOpt pNat
+    let pPerDim ← pNat
+    let extra ← pNat            -- population padding (add_n_random_init_pos), 0 = none
+    let rnds ← pList (pN nd pInt)
+    let vtxs ← pList (pN nd pInt)
+    let table ← pList (do let p ← pN nd pInt; let b ← pBool; pure (p, b))
+    let warms ← match nwarm with
+      | none => pure none
+      | some k => do
+        let ws ← pN k (pList (do let name ← tok; let v ← pRat; pure (name, v)))
+        pure (some ws)
+    let feas : Pos → Bool := fun p => match table.find? (fun e => e.1 == p) with
+      | some e => e.2
+      | none => true
+    let cfg : InitCfg := { random := rnd, grid := grid, vertices := vtx, warm := warms }
+    let r := match setPos feas m.sp cfg pPerDim 100000 { rnd := rnds, vtx := vtxs } with
+      | .error e => Except.error e
+      | .ok (l, d1) =>
+        if extra = 0 then .ok (l, d1) else addNRandom feas 100000 l extra d1
+    pure (m, [match r with
+      | .ok (l, d1) => showList showPos l ++ s!" left={d1.rnd.length},{d1.vtx.length}"
+      | .error e => "err:" ++ e.toString])
+  | "split" => do
+    let pop ← pNat; let n ← pNat
+    pure (m, [showList (showList toString) (splitDeal (List.range n) pop)])
+  -- ---------------- grid search (GFO.Model.Grid)
+  | "gdir" => do
+    let S ← pNat; let start ← pNat
+    pure (m, [toString (getDirection S start)])
+  | "gdiag" => do
+    let dims ← pList pNat; let s ← pNat; let d ← pNat; let n ← pNat
+    pure (m, [showList (fun t => showList toString (diagPos dims s d t)) (List.range n)])
+  | "gorth" => do
+    let dims ← pList pNat; let s ← pNat; let n ← pNat
+    pure (m, [showList (fun t => showList toString (orthPos dims s t)) (List.range n)])
+  | "gdecode" => do
+    let dims ← pList pNat; let p ← pNat
+    pure (m, [showList toString (decodeDiag dims p) ++ " " ++ showList toString (decodeOrth dims p)])
   -- ---------------- shared manager dict (GFO.Model.Shared)
   | "sreset" => pure ({ m with sdict := [] }, ["ok"])
   | "sop" => do
